@@ -31,6 +31,7 @@ class Obligation:
 
 
 REPLAY = None     # --replay <file>: only the obligation named in the replay file is re-decided (on the current tree); evidence is left alone
+SELFTEST = None   # thorough tier: {'seeds': n, 'reported': k, 'detail': {...}} - the stored seeded changes of this property re-applied to scratch copies (informational)
 DEFERRED = None   # thorough tier: a list collecting the reports of the passes, merged by `merge_passes`
 
 
@@ -202,6 +203,8 @@ class Report:
             'exhaustive': False,
         }
         cov.update(self.extra)
+        if SELFTEST is not None:
+            cov['selftest_seeded_changes'] = SELFTEST
         ev = {
             'property_id': self.prop,
             'tier': self.tier,
